@@ -25,7 +25,7 @@ REAL_KINDS = set(ec.KINDS[PID]) | {"no_progress", "query_panicked"}
 
 QUICK_PLAN = ([("rocksdb", "b")] * 5 + [("rocksdb", "c")] * 3 + [("rocksdb", "a")] +
               [("fjall", "a"), ("fjall", "b"), ("fjall", "c")])
-THOROUGH_PLAN = ([("rocksdb", "b")] * 16 + [("rocksdb", "c")] * 8 + [("rocksdb", "a")] * 6 +
+THOROUGH_PLAN = 3 * ([("rocksdb", "b")] * 16 + [("rocksdb", "c")] * 8 + [("rocksdb", "a")] * 6 +
                  [("fjall", "a")] * 5 + [("fjall", "c")] * 3 + [("fjall", "b")] * 2)
 
 
